@@ -117,7 +117,16 @@ def gen_table(rng):
     if lid_mode != "none":
         nm["lineage_id"] = "lin_col"
     has_div = any(sum(1 for e in forest.edges if e[0] == u) == 2 for u in ids)
-    return {"lid_mode": lid_mode, "has_div": has_div, "zero_id": 0 in ids and idkind == "int",
+    # a measurement column loaded through the `features` argument; the index of the frame
+    index_kind = rng.choice(["default", "default", "shuffled", "offset", "labels"])
+    load_area = rng.random() < 0.3
+    if load_area:
+        for r in rows:
+            r["area"] = round(rng.uniform(1, 90), 2)
+        cols = list(rows[0].keys())
+        rng.shuffle(cols)
+    return {"index_kind": index_kind, "load_area": load_area, "shuffle_seed": rng.randrange(10**6),
+            "lid_mode": lid_mode, "has_div": has_div, "zero_id": 0 in ids and idkind == "int",
             "nd": nd, "rows": rows, "cols": cols, "nm": nm, "idkind": idkind,
             "rootenc": rootenc, "mapkind": mapkind, "order": order, "posnames": posnames,
             "names": names, "customs": use_custom, "tid_mode": tid_mode,
@@ -170,6 +179,15 @@ def make_df(case, wd, through_csv):
         p = wd / "t.csv"
         df.to_csv(p, index=False)  # NaN is written as an empty field
         df = pd.read_csv(p, dtype={"uid": str})
+    # the row labels of the frame are the caller's business: shuffled rows that keep their
+    # labels, a filtered frame (labels with gaps / an offset), arbitrary labels
+    kind = case.get("index_kind", "default")
+    if kind == "shuffled":
+        df = df.sample(frac=1, random_state=case.get("shuffle_seed", 0))
+    elif kind == "offset":
+        df.index = [3 * i + 7 for i in range(len(df))]
+    elif kind == "labels":
+        df.index = [f"row{i}" for i in range(len(df))][::-1]
     return df
 
 
@@ -177,10 +195,12 @@ def judge_df(case, wd):
     from funtracks.import_export import tracks_from_df
 
     df = make_df(case, wd, through_csv=False)
+    nm_obj = dict(case["nm"])  # ONE mapping object owned by the caller
+    feats = {"Area": "area"} if case.get("load_area") and "area" in df.columns else None
     with warnings.catch_warnings():
         warnings.simplefilter("ignore")
         try:
-            tracks = tracks_from_df(df, node_name_map=dict(case["nm"]))
+            tracks = tracks_from_df(df, node_name_map=nm_obj, features=feats)
         except Exception as e:
             if case["malform"]:
                 if isinstance(e, ValueError):
@@ -198,7 +218,32 @@ def judge_df(case, wd):
         return [("malformed-accepted", f"{case['malform']} table was imported "
                  f"({tracks.graph.number_of_nodes()} nodes)",
                  f"C12/df/malformed/{case['malform']}/accepted")]
-    return compare(case, tracks, "df")
+    probs = compare(case, tracks, "df")
+    if feats and not probs:
+        rows = {str(r["uid"]): r for r in case["rows"]}
+        for n in tracks.graph.nodes:
+            v = tracks.get_node_attr(n, "area")
+            if v is None or float(v) != rows[str(tracks.get_node_attr(n, "uid"))]["area"]:
+                probs.append(("loaded-feature", f"node {n}: area loaded through features= is "
+                              f"{v!r}, source {rows[str(tracks.get_node_attr(n, 'uid'))]['area']}",
+                              "C12/df/loaded-feature/area"))
+                break
+        # the caller imports the next table with the SAME mapping object (this one has no
+        # measurement column): it is as well-formed as the first one
+        if not probs:
+            with warnings.catch_warnings():
+                warnings.simplefilter("ignore")
+                try:
+                    again = tracks_from_df(df.drop(columns=["area"]), node_name_map=nm_obj)
+                    if set(again.graph.nodes) != set(tracks.graph.nodes) or \
+                            set(again.graph.edges) != set(tracks.graph.edges):
+                        probs.append(("second-import", "second import with the same mapping "
+                                      "object gave a different graph", "C12/df/second-import"))
+                except Exception as e:
+                    probs.append(("second-import", f"well-formed second table refused when the "
+                                  f"caller re-used its mapping object: {type(e).__name__}: "
+                                  f"{str(e)[:200]}", "C12/df/second-import/raised"))
+    return probs
 
 
 def compare(case, tracks, src):
@@ -349,6 +394,12 @@ def run_shard(spec):
                                     f"{case['mapkind']}/tid={case['tid_mode']}/"
                                     f"lid={case['lid_mode']}/{case['malform']}")
                     if not case["malform"]:
+                        if src == "df" and case["index_kind"] != "default":
+                            acc["counters"]["df-wellformed-nondefault-index"] = \
+                                acc["counters"].get("df-wellformed-nondefault-index", 0) + 1
+                        if src == "df" and case["load_area"]:
+                            acc["counters"]["df-features-argument"] = \
+                                acc["counters"].get("df-features-argument", 0) + 1
                         if case["zero_id"]:
                             acc["counters"]["wellformed-with-id-0"] = \
                                 acc["counters"].get("wellformed-with-id-0", 0) + 1
@@ -385,7 +436,8 @@ def jsonable(case):
 def floors(tier):
     return {"df-wellformed": 800, "df-malformed": 800, "geff-wellformed": 150,
             "geff-malformed": 100, "wellformed-with-id-0": 100,
-            "mapped-lineage-with-division": 50}
+            "mapped-lineage-with-division": 50,
+            "df-wellformed-nondefault-index": 200, "df-features-argument": 100}
 
 
 def replay(doc):
